@@ -123,7 +123,7 @@ func (c *c04) RunDesc(desc json.RawMessage) engine.Result {
 		c.menu = c04Menu()
 	}
 	if len(cs.EVMProg) > 0 {
-		res, findings, _, names, mr := c17Run(c17Case{Prog: cs.EVMProg, Family: 2})
+		res, findings, _, names, mr := c17Run(c17Case{Prog: cs.EVMProg, Family: 3})
 		if mr != nil && mr.Res != nil {
 			defer mr.Res.Cleanup()
 		}
